@@ -54,6 +54,18 @@ func (q quote) libForm(form int) *bt.FeeQuote {
 		fq.AddQuote(bt.FeeTypeStandard, got)
 		fq.AddQuote(bt.FeeTypeData, &cp)
 		return fq
+	case 6:
+		// another default quote's Fee objects are modified in place by their owner; for the
+		// default rates (5/100) the quote handed back is a FRESH default quote, which must not care
+		victim := bt.NewFeeQuote()
+		for _, ft := range []bt.FeeType{bt.FeeTypeStandard, bt.FeeTypeData} {
+			if f, err := victim.Fee(ft); err == nil {
+				f.MiningFee, f.RelayFee = bt.FeeUnit{Satoshis: 977, Bytes: 3}, bt.FeeUnit{Satoshis: 977, Bytes: 3}
+			}
+		}
+		if q == (quote{5, 100, 5, 100}) {
+			return bt.NewFeeQuote()
+		}
 	}
 	fq := bt.NewFeeQuote()
 	fq.AddQuote(bt.FeeTypeStandard, std)
